@@ -103,6 +103,7 @@ enum Op {
     Link(u64),
     Unlink(u64),
     Done(u64),
+    StopAll,
 }
 fn body_coq(v: i32) -> String {
     coq_list(v.to_string().bytes().map(|b| b.to_string()))
@@ -117,6 +118,7 @@ impl Op {
             Op::Link(r) => format!("PLink {}", r),
             Op::Unlink(r) => format!("PUnlink {}", r),
             Op::Done(r) => format!("PDone {}", r),
+            Op::StopAll => "PStopAll".into(),
         }
     }
 }
@@ -202,6 +204,10 @@ async fn run(init: i32, ops: &[Op]) -> Vec<String> {
                     start(t.into_iter().collect(), &mut inflight);
                 }
             }
+            Op::StopAll => {
+                let ts = state.unlink_all();
+                start(ts, &mut inflight);
+            }
             Op::Done(r) => {
                 if let Some(task) = inflight.remove(r) {
                     let (sender, buffer, result) = tokio::time::timeout(std::time::Duration::from_secs(5), task.into_future())
@@ -282,6 +288,7 @@ fn main() {
                 Op::Link(_) => "link",
                 Op::Unlink(_) => "unlink",
                 Op::Done(_) => "done",
+                Op::StopAll => "stop_all",
             };
             *kinds.entry(k.into()).or_default() += 1;
         }
@@ -332,6 +339,10 @@ fn main() {
                 Op::Done(r)
             });
         }
+        if rng.below(4) == 0 {
+            // the agent stops: every open link is closed
+            ops.push(Op::StopAll);
+        }
         // run to quiescence
         for _ in 0..6 {
             ops.push(Op::Write);
@@ -348,7 +359,7 @@ fn main() {
     let meta = J::obj(vec![
         ("evaluations", J::I(w.len() as i128)),
         ("distinct_nontrivial", J::I(nontrivial as i128)),
-        ("rule", J::s("a real ValueLane<i32> (ValueLaneSet / ValueLaneSync handlers stepped to completion, LaneItem::write_to_buffer), its bytes through a byte channel into the runtime's real ResponseReceiver, each decoded response into the real WriteTaskState::handle_event, write tasks completed one at a time, each remote's channel decoded with RawResponseMessageDecoder; 1-3 remotes, 5-40 random operations (set 28%, write 24%, sync 10%, link 10%, unlink 5%, write completion 23%; a third of the cases with few completions so that values pile up behind a write in progress), then six rounds of write + completions to quiescence; per operation the frames delivered and the lane's WriteResult are compared with Model/ValuePipeline.v, the specialised runtime model is compared with the general write-task model of Model/Uplinks.v, and the stuttering-subsequence oracle is evaluated on the implementation's frames; non-trivial = an event was skipped and a synced delivered; distinct by rendered case")),
+        ("rule", J::s("a real ValueLane<i32> (ValueLaneSet / ValueLaneSync handlers stepped to completion, LaneItem::write_to_buffer), its bytes through a byte channel into the runtime's real ResponseReceiver, each decoded response into the real WriteTaskState::handle_event, write tasks completed one at a time, each remote's channel decoded with RawResponseMessageDecoder; 1-3 remotes, 5-40 random operations (set 28%, write 24%, sync 10%, link 10%, unlink 5%, write completion 23%; a third of the cases with few completions so that values pile up behind a write in progress), in a quarter of the cases the agent then stops (unlink_all), then six rounds of write + completions to quiescence; per operation the frames delivered and the lane's WriteResult are compared with Model/ValuePipeline.v, the specialised runtime model is compared with the general write-task model of Model/Uplinks.v, and the oracle is evaluated on the implementation's frames (ordered gap-tolerant view of the history, the link protocol grammar per remote, no more synced markers than sync requests); non-trivial = an event was skipped and a synced delivered; distinct by rendered case")),
         ("structures", J::counts(&kinds)),
         ("samples", J::A(samples)),
         ("direct_failures", J::A(failures.iter().take(40).map(|f| J::s(f.chars().take(500).collect::<String>())).collect())),
